@@ -44,10 +44,11 @@ theorem or4_and {p A B C D : Prop} :
     · exact Or.inr (Or.inr (Or.inr ⟨h, a⟩))
 
 /-- the kept lower triangles along the hole edge `x = y = 3`, as a list -/
-def qlist (Lz : Nat) : List Coord :=
-  (List.range ((Lz - 5) / 2)).map fun (i : Nat) => [0, 2, 2, 8 + 4 * (i : Int)]
+def qlist (Lx Ly Lz : Nat) : List Coord :=
+  (List.range (qn Lx Ly Lz)).map fun (i : Nat) => [0, 2, 2, 8 + 4 * (i : Int)]
 
-theorem spec_qlist (Lz : Nat) : Spec (qlist Lz) (fun a x y z => a = 0 ∧ QR Lz x y z) where
+theorem spec_qlist (Lx Ly Lz : Nat) :
+    Spec (qlist Lx Ly Lz) (fun a x y z => a = 0 ∧ QR Lx Ly Lz x y z) where
   nodup := by
     unfold qlist
     refine List.Nodup.map ?_ List.nodup_range
@@ -66,7 +67,7 @@ theorem spec_qlist (Lz : Nat) : Spec (qlist Lz) (fun a x y z => a = 0 ∧ QR Lz 
         have : (8 : Int) + 4 * (((z - 8) / 4).toNat : Int) = z := by omega
         rw [this]⟩
 
-theorem length_qlist (Lz : Nat) : (qlist Lz).length = (Lz - 5) / 2 := by simp [qlist]
+theorem length_qlist (Lx Ly Lz : Nat) : (qlist Lx Ly Lz).length = qn Lx Ly Lz := by simp [qlist]
 
 section
 variable (Lx Ly Lz : Nat)
@@ -97,14 +98,14 @@ def L0 : List Coord :=
 /-- the boxes of the triangles of axis 0 -/
 def LB0 : List Coord :=
   bx 0 (2 * Lx - 2) 1 0 (Ly - 1) 0 Lz tt ++ (bx 0 2 (Lx - 2) 0 (Ly - 1) 2 (Lz - 1) (chk 2) ++
-  (bx 0 2 1 4 (Ly - 4) 2 1 (chk 0) ++ (bx 0 4 (Lx - 3) 2 1 2 1 (chk 0) ++ qlist Lz)))
+  (bx 0 2 1 4 (Ly - 4) 2 1 (chk 0) ++ (bx 0 4 (Lx - 3) 2 1 2 1 (chk 0) ++ qlist Lx Ly Lz)))
 
 end
 
 section
 variable {Lx Ly Lz : Nat}
 
-theorem spec_L3 (hx : 4 ≤ Lx) (hy : 5 ≤ Ly) (hz : 5 ≤ Lz) :
+theorem spec_L3 (hx : 3 ≤ Lx) (hy : 4 ≤ Ly) (hz : 5 ≤ Lz) :
     Spec (L3 Lx Ly Lz) (fun a x y z => a = 3 ∧ P3 Lx Ly Lz x y z) := by
   unfold L3
   have h := (spec_bx 3 4 (Lx - 3) 4 (Ly - 4) 4 (Lz - 4) tt).append
@@ -122,7 +123,7 @@ theorem spec_L3 (hx : 4 ≤ Lx) (hy : 5 ≤ Ly) (hz : 5 ≤ Lz) :
   simp only [chk_iff, tt_iff, and_true]
   exact or5_and
 
-theorem spec_L2 (hx : 4 ≤ Lx) (hy : 5 ≤ Ly) (hz : 5 ≤ Lz) :
+theorem spec_L2 (hx : 3 ≤ Lx) (hy : 4 ≤ Ly) (hz : 5 ≤ Lz) :
     Spec (L2 Lx Ly Lz) (fun a x y z => a = 2 ∧ P2 Lx Ly Lz x y z) := by
   unfold L2
   have h := (spec_bx 2 4 (Lx - 3) 4 (Ly - 4) 4 (Lz - 4) tt).append
@@ -140,7 +141,7 @@ theorem spec_L2 (hx : 4 ≤ Lx) (hy : 5 ≤ Ly) (hz : 5 ≤ Lz) :
   simp only [chk_iff, tt_iff, and_true]
   exact or5_and
 
-theorem spec_L1 (hx : 4 ≤ Lx) (hy : 5 ≤ Ly) (hz : 5 ≤ Lz) :
+theorem spec_L1 (hx : 3 ≤ Lx) (hy : 4 ≤ Ly) (hz : 5 ≤ Lz) :
     Spec (L1 Lx Ly Lz) (fun a x y z => a = 1 ∧ P1 Lx Ly Lz x y z) := by
   unfold L1
   have h := (spec_bx 1 2 (Lx - 1) (2 * Ly - 2) 1 0 Lz tt).append
@@ -158,7 +159,7 @@ theorem spec_L1 (hx : 4 ≤ Lx) (hy : 5 ≤ Ly) (hz : 5 ≤ Lz) :
   simp only [chk_iff, tt_iff, and_true]
   exact or5_and
 
-theorem spec_L0 (hx : 4 ≤ Lx) (hy : 5 ≤ Ly) (hz : 5 ≤ Lz) :
+theorem spec_L0 (hx : 3 ≤ Lx) (hy : 4 ≤ Ly) (hz : 5 ≤ Lz) :
     Spec (L0 Lx Ly Lz) (fun a x y z => a = 0 ∧ P0 Lx Ly Lz x y z) := by
   unfold L0
   have h := (spec_bx 0 4 (Lx - 3) 4 (Ly - 4) 4 (Lz - 4) (chk 2)).append
@@ -174,13 +175,13 @@ theorem spec_L0 (hx : 4 ≤ Lx) (hy : 5 ≤ Ly) (hz : 5 ≤ Lz) :
   simp only [chk_iff, tt_iff, and_true]
   exact or4_and
 
-theorem spec_LB0 (hx : 4 ≤ Lx) (hy : 5 ≤ Ly) (hz : 5 ≤ Lz) :
+theorem spec_LB0 (hx : 3 ≤ Lx) (hy : 4 ≤ Ly) (hz : 5 ≤ Lz) :
     Spec (LB0 Lx Ly Lz) (fun a x y z => a = 0 ∧ B0 Lx Ly Lz x y z) := by
   unfold LB0
   have h := (spec_bx 0 (2 * Lx - 2) 1 0 (Ly - 1) 0 Lz tt).append
     ((spec_bx 0 2 (Lx - 2) 0 (Ly - 1) 2 (Lz - 1) (chk 2)).append
     ((spec_bx 0 2 1 4 (Ly - 4) 2 1 (chk 0)).append
-    ((spec_bx 0 4 (Lx - 3) 2 1 2 1 (chk 0)).append (spec_qlist Lz)
+    ((spec_bx 0 4 (Lx - 3) 2 1 2 1 (chk 0)).append (spec_qlist Lx Ly Lz)
     (by intro a x y z h1 h2; simp only [chk_iff, tt_iff] at h1 h2; unfold InAp at h1
         unfold QR at h2; omega))
     (by intro a x y z h1 h2; simp only [chk_iff, tt_iff] at h1 h2; unfold InAp at h1 h2
@@ -196,7 +197,7 @@ theorem spec_LB0 (hx : 4 ≤ Lx) (hy : 5 ≤ Ly) (hz : 5 ≤ Lz) :
   exact or5_and
 
 /-- selected triangles and not-listed boxes against the boxes -/
-theorem selTriangles_partition (hx : 4 ≤ Lx) (hy : 5 ≤ Ly) (hz : 5 ≤ Lz) :
+theorem selTriangles_partition (hx : 3 ≤ Lx) (hy : 4 ≤ Ly) (hz : 5 ≤ Lz) :
     ((triangles Lx Ly Lz).filter (selTri Lx Ly Lz)).length +
       ((L3 Lx Ly Lz).length + ((L2 Lx Ly Lz).length + (L0 Lx Ly Lz).length)) =
     (bx 3 2 (Lx - 1) 0 (Ly - 1) 0 Lz tt).length + ((bx 2 2 (Lx - 1) 2 (Ly - 1) 0 Lz tt).length +
